@@ -519,6 +519,48 @@ def canonical_tree(tree: ast.Module, keep_names: Iterable[str] = ()) -> ast.Modu
 
     tree = T4().visit(tree)
 
+    # C6 walrus evaluated first in an `if` test -> assignment statement before the `if`
+    def hoist_walrus(root):
+        def first_named(e):
+            """the NamedExpr that is evaluated before anything else in ``e`` (or None)"""
+            if isinstance(e, ast.NamedExpr):
+                return e
+            if isinstance(e, ast.Compare):
+                return first_named(e.left)
+            if isinstance(e, ast.UnaryOp):
+                return first_named(e.operand)
+            if isinstance(e, ast.BoolOp):
+                return first_named(e.values[0])
+            if isinstance(e, ast.Attribute):
+                return first_named(e.value)
+            if isinstance(e, ast.Call):
+                return first_named(e.func)
+            return None
+
+        for owner in ast.walk(root):
+            for fld in ("body", "orelse", "finalbody"):
+                body = getattr(owner, fld, None)
+                if not (isinstance(body, list) and body and isinstance(body[0], ast.stmt)):
+                    continue
+                i = 0
+                while i < len(body):
+                    st = body[i]
+                    if isinstance(st, ast.If):
+                        ne = first_named(st.test)
+                        if ne is not None and isinstance(ne.target, ast.Name) and not any(isinstance(x, ast.NamedExpr) for x in ast.walk(ne.value)):
+                            class R(ast.NodeTransformer):
+                                def visit_NamedExpr(self, node):
+                                    if node is ne:
+                                        return ast.copy_location(ast.Name(id=ne.target.id, ctx=ast.Load()), node)
+                                    return self.generic_visit(node)
+
+                            st.test = R().visit(st.test)
+                            body.insert(i, ast.copy_location(ast.Assign(targets=[ast.Name(id=ne.target.id, ctx=ast.Store())], value=ne.value), st))
+                            i += 1
+                    i += 1
+
+    hoist_walrus(tree)
+
     # C5 single-use temporaries read in the very next statement
     def inline_temps(fn):
         changed = True
